@@ -39,6 +39,10 @@ pub struct Cfg {
     /// ceremony cannot get any further (the capability must still be the store's own)
     #[serde(default)]
     pub contended: bool,
+    /// before the judged ceremony the same authenticator registered a resident credential while the store still had
+    /// this capability (whatever it learnt then must not outlive the change)
+    #[serde(default)]
+    pub prior: Option<Disc>,
 }
 
 type Acquire = Box<dyn Fn() -> Box<dyn std::any::Any>>;
@@ -113,7 +117,28 @@ fn check_with<S: passkey_authenticator::CredentialStore<PasskeyItem = passkey_ty
     }
     let dynamic = c.cap_after_prompt.is_some();
     let uv_handle = uv.clone();
-    let auth = cer::build_authenticator(wrapped, uv, &AuthCfg { counter: true, hmac: if c.prf { crate::cer::HmacCfg::WithoutUvMc } else { crate::cer::HmacCfg::None }, ..Default::default() });
+    #[allow(unused_mut)]
+    let mut auth = cer::build_authenticator(wrapped, uv, &AuthCfg { counter: true, hmac: if c.prf { crate::cer::HmacCfg::WithoutUvMc } else { crate::cer::HmacCfg::None }, ..Default::default() });
+    if let (Some(prior), None) = (c.prior, c.cap_after_prompt) {
+        store.set_disc(prior);
+        let warm = make_credential::Request {
+            client_data_hash: vec![6u8; 32].into(),
+            rp: make_credential::PublicKeyCredentialRpEntity { id: "example.com".into(), name: None },
+            user: passkey_types::webauthn::PublicKeyCredentialUserEntity { id: b"c11-earlier-user".to_vec().into(), display_name: "d".into(), name: "n".into() },
+            pub_key_cred_params: cer::params(&[-7]),
+            exclude_list: None,
+            extensions: None,
+            options: make_credential::Options { rk: true, up: true, uv: uv_ok },
+            pin_auth: None,
+            pin_protocol: None,
+        };
+        let _ = block_on(auth.make_credential(warm));
+        let _ = block_on(auth.get_info());
+        store.0.lock().unwrap().creds.clear();
+        store.clear_log();
+        store.set_disc(c.cap);
+        ctx.class("after an earlier resident registration under another capability");
+    }
     let supports_rk = c.cap != Disc::OnlyNonDiscoverable;
     let site = &SITES[0];
     if let Some((rkreq, require, cred_props, with_sel)) = c.client {
@@ -295,54 +320,65 @@ pub fn all_configs() -> Vec<Cfg> {
             for require in [false, true] {
                 for cp in 0..3u8 {
                     for prf in [false, true] {
-                        v.push(Cfg { cap, client: Some((rkreq, require, cp, true)), ctap_rk: None, prf, cap_after_prompt: None, wrap: 0, uv_cap: 0, contended: false });
+                        v.push(Cfg { cap, client: Some((rkreq, require, cp, true)), ctap_rk: None, prf, cap_after_prompt: None, wrap: 0, uv_cap: 0, contended: false, prior: None });
                     }
                 }
             }
         }
         // no authenticatorSelection at all
         for cp in 0..3u8 {
-            v.push(Cfg { cap, client: Some((0, false, cp, false)), ctap_rk: None, prf: false, cap_after_prompt: None, wrap: 0, uv_cap: 0, contended: false });
-            v.push(Cfg { cap, client: Some((0, false, cp, false)), ctap_rk: None, prf: true, cap_after_prompt: None, wrap: 0, uv_cap: 0, contended: false });
+            v.push(Cfg { cap, client: Some((0, false, cp, false)), ctap_rk: None, prf: false, cap_after_prompt: None, wrap: 0, uv_cap: 0, contended: false, prior: None });
+            v.push(Cfg { cap, client: Some((0, false, cp, false)), ctap_rk: None, prf: true, cap_after_prompt: None, wrap: 0, uv_cap: 0, contended: false, prior: None });
         }
         for rk in [false, true] {
-            v.push(Cfg { cap, client: None, ctap_rk: Some(rk), prf: false, cap_after_prompt: None, wrap: 0, uv_cap: 0, contended: false });
+            v.push(Cfg { cap, client: None, ctap_rk: Some(rk), prf: false, cap_after_prompt: None, wrap: 0, uv_cap: 0, contended: false, prior: None });
         }
         // the store handed over inside each lock wrapper, and authenticators whose user verification is not configured / absent
         for rkreq in 0..4u8 {
             for require in [false, true] {
                 for wrap in 1..5u8 {
-                    v.push(Cfg { cap, client: Some((rkreq, require, 2, true)), ctap_rk: None, prf: false, cap_after_prompt: None, wrap, uv_cap: 0, contended: false });
+                    v.push(Cfg { cap, client: Some((rkreq, require, 2, true)), ctap_rk: None, prf: false, cap_after_prompt: None, wrap, uv_cap: 0, contended: false, prior: None });
                 }
                 for uv_cap in 1..3u8 {
-                    v.push(Cfg { cap, client: Some((rkreq, require, 2, true)), ctap_rk: None, prf: false, cap_after_prompt: None, wrap: 0, uv_cap, contended: false });
+                    v.push(Cfg { cap, client: Some((rkreq, require, 2, true)), ctap_rk: None, prf: false, cap_after_prompt: None, wrap: 0, uv_cap, contended: false, prior: None });
                 }
             }
         }
         for rk in [false, true] {
             for wrap in 1..5u8 {
-                v.push(Cfg { cap, client: None, ctap_rk: Some(rk), prf: false, cap_after_prompt: None, wrap, uv_cap: 0, contended: false });
+                v.push(Cfg { cap, client: None, ctap_rk: Some(rk), prf: false, cap_after_prompt: None, wrap, uv_cap: 0, contended: false, prior: None });
             }
             for uv_cap in 1..3u8 {
-                v.push(Cfg { cap, client: None, ctap_rk: Some(rk), prf: false, cap_after_prompt: None, wrap: 0, uv_cap, contended: false });
+                v.push(Cfg { cap, client: None, ctap_rk: Some(rk), prf: false, cap_after_prompt: None, wrap: 0, uv_cap, contended: false, prior: None });
+            }
+        }
+        // the judged registration follows an earlier resident registration made while the store had another capability
+        for prior in Disc::ALL.into_iter().filter(|p| *p != cap && *p != Disc::OnlyNonDiscoverable) {
+            for rkreq in 0..4u8 {
+                for require in [false, true] {
+                    v.push(Cfg { cap, client: Some((rkreq, require, 2, true)), ctap_rk: None, prf: false, cap_after_prompt: None, wrap: 0, uv_cap: 0, contended: false, prior: Some(prior) });
+                }
+            }
+            for rk in [false, true] {
+                v.push(Cfg { cap, client: None, ctap_rk: Some(rk), prf: false, cap_after_prompt: None, wrap: 0, uv_cap: 0, contended: false, prior: Some(prior) });
             }
         }
         // registrations through the Arc wrappers while another task holds the store lock
         for wrap in [3u8, 4] {
             for rkreq in 0..4u8 {
                 for require in [false, true] {
-                    v.push(Cfg { cap, client: Some((rkreq, require, 2, true)), ctap_rk: None, prf: false, cap_after_prompt: None, wrap, uv_cap: 0, contended: true });
+                    v.push(Cfg { cap, client: Some((rkreq, require, 2, true)), ctap_rk: None, prf: false, cap_after_prompt: None, wrap, uv_cap: 0, contended: true, prior: None });
                 }
             }
             for rk in [false, true] {
-                v.push(Cfg { cap, client: None, ctap_rk: Some(rk), prf: false, cap_after_prompt: None, wrap, uv_cap: 0, contended: true });
+                v.push(Cfg { cap, client: None, ctap_rk: Some(rk), prf: false, cap_after_prompt: None, wrap, uv_cap: 0, contended: true, prior: None });
             }
         }
         // the capability changes while the user is being asked (credProps requested)
         for new_cap in Disc::ALL.into_iter().filter(|n| *n != cap) {
             for rkreq in 0..4u8 {
                 for require in [false, true] {
-                    v.push(Cfg { cap, client: Some((rkreq, require, 2, true)), ctap_rk: None, prf: false, cap_after_prompt: Some(new_cap), wrap: 0, uv_cap: 0, contended: false });
+                    v.push(Cfg { cap, client: Some((rkreq, require, 2, true)), ctap_rk: None, prf: false, cap_after_prompt: Some(new_cap), wrap: 0, uv_cap: 0, contended: false, prior: None });
                 }
             }
         }
@@ -351,7 +387,7 @@ pub fn all_configs() -> Vec<Cfg> {
 }
 
 pub fn run(ctx: &mut Ctx) {
-    ctx.rule = "complete product: store capability (3) x residentKey (absent, discouraged, preferred, required) x requireResidentKey (2) x credProps request (absent, false, true) x PRF requested on a PRF-capable authenticator (2) through Client::register followed by three authentications under userVerification preferred / discouraged / required (counters on, so the record is rewritten in between), plus authenticatorSelection absent (3x3), plus the capability changing to each other value while the user is asked (credProps requested; only credProps-versus-stored and the assertion rules are judged), plus the store handed over inside each of the four lock wrappers (through the Arc wrappers also while another task holds the lock until the ceremony cannot proceed), a final assertion whose allow list names the new credential and a sibling, plus authenticators whose user verification is present-but-unconfigured or absent (ceremonies then run with userVerification discouraged), plus capability x CTAP rk (2) through make_credential / get_assertion. Every configuration is distinct and non-trivial.".into();
+    ctx.rule = "complete product: store capability (3) x residentKey (absent, discouraged, preferred, required) x requireResidentKey (2) x credProps request (absent, false, true) x PRF requested on a PRF-capable authenticator (2) through Client::register followed by three authentications under userVerification preferred / discouraged / required (counters on, so the record is rewritten in between), plus authenticatorSelection absent (3x3), plus the capability changing to each other value while the user is asked (credProps requested; only credProps-versus-stored and the assertion rules are judged), plus the store handed over inside each of the four lock wrappers (through the Arc wrappers also while another task holds the lock until the ceremony cannot proceed), a final assertion whose allow list names the new credential and a sibling, the judged registration preceded by an earlier resident registration under another capability, plus authenticators whose user verification is present-but-unconfigured or absent (ceremonies then run with userVerification discouraged), plus capability x CTAP rk (2) through make_credential / get_assertion. Every configuration is distinct and non-trivial.".into();
     ctx.exhaustive = Some(true);
     ctx.assumptions = vec!["the capability is set through the reference store's get_info; user validation always consents".into()];
     let all = all_configs();
